@@ -27,6 +27,8 @@ inductive Val where
 namespace Val
 def isStr : Val → Bool | str _ => true | _ => false
 def isNil : Val → Bool | nil => true | _ => false
+/-- a missing value: Python `None` or `nan` (`v is None or v != v`) -/
+def isMiss : Val → Bool | nil => true | nan => true | _ => false
 def isNum : Val → Bool | num _ => true | _ => false
 /-- `isinstance(v,(int,float)) or v is None` -/
 def numOrNil : Val → Bool | str _ => false | _ => true
@@ -196,10 +198,11 @@ def getD0 (k : String) (c : SCtx) : Val :=
 
 def hasKey (k : String) (c : SCtx) : Bool := (c.lookup k).isSome
 
-/-- sparse `potential_keys`: the keys seen in the fitting window minus the keys whose value in
-the first context is neither a number nor `None` -/
-def potSparse (first : SCtx) (fitting : List SCtx) (k : String) : Bool :=
-  fitting.any (hasKey k) && !(match first.lookup k with | some v => v.isStr | none => false)
+/-- which sparse keys are scaled: every key whose value in the first context is not a string.  (Keys seen in
+the fitting window get the parameters fitted on their window column; a key absent from the whole window is a
+column of zeros there — `fitting.map (getD0 k)` is that column in both cases.) -/
+def potSparse (first : SCtx) (k : String) : Bool :=
+  !(match first.lookup k with | some v => v.isStr | none => false)
 
 inductive Err where
   | cobaException
@@ -207,7 +210,7 @@ inductive Err where
 
 /-- the application loop on one sparse context -/
 def sparseRow (sd : List Rat → Rat) (cfg : Cfg) (first : SCtx) (fitting : List SCtx) (c : SCtx) : SCtx :=
-  c.map (fun kv => (kv.1, applyOpt (if potSparse first fitting kv.1 then fit sd cfg (fitting.map (getD0 kv.1)) else none) kv.2))
+  c.map (fun kv => (kv.1, applyOpt (if potSparse first kv.1 then fit sd cfg (fitting.map (getD0 kv.1)) else none) kv.2))
 
 /-- `Scale.filter` on sparse contexts (`shift` must be 0) -/
 def scaleSparse (sd : List Rat → Rat) (cfg : Cfg) (rows : List SCtx) : Except Err (List SCtx) :=
@@ -237,10 +240,10 @@ def modeAux (all : List Val) : List Val → Option Val → Option Val
 
 def mode (vs : List Val) : Option Val := modeAux vs vs none
 
-/-- `Impute._get_imputation` on one column of the window (`None`s dropped first).  `none` = no
-imputation (an exception was swallowed, or the column is not numeric for mean/median). -/
+/-- `Impute._get_imputation` on one column of the window (missing values — `None`, `nan` — dropped first).
+`none` = no imputation (an exception was swallowed, or the column is not numeric for mean/median). -/
 def getImp (st : Stat) (w : List Val) : Option Val :=
-  let vs := w.filter (fun v => !v.isNil)
+  let vs := w.filter (fun v => !v.isMiss)
   match st with
   | .mode => mode vs
   | .mean => if vs.all Val.isNum then (mean (nums vs)).map Val.num else none
@@ -252,10 +255,16 @@ def impDense (st : Stat) (first : List Val) (k : Nat) : Bool :=
   | .mode => k < first.length
   | _ => potDense first k
 
+/-- a missing value is replaced by the imputation, if there is one; everything else stays -/
 def imputeCell (imp : Option Val) (v : Val) : Val :=
-  match v, imp with
-  | .nil, some x => x
-  | v, _ => v
+  match imp with
+  | some x => if v.isMiss then x else v
+  | none => v
+
+/-- is the (optional) cell a missing value -/
+def missAt : Option Val → Bool
+  | some v => v.isMiss
+  | none => false
 
 def bit (b : Bool) : Val := .num (if b then 1 else 0)
 
@@ -263,16 +272,16 @@ def bit (b : Bool) : Val := .num (if b then 1 else 0)
 def denseImp (st : Stat) (first : List Val) (win : List (List Val)) (k : Nat) : Option Val :=
   if impDense st first k then getImp st (col k win) else none
 
-/-- the columns that get a missingness indicator, in column order (`impute_binary`) -/
-def denseBins (st : Stat) (ind : Bool) (first : List Val) (win : List (List Val)) : List Nat :=
-  if ind then (List.range first.length).filter (fun k =>
-    (denseImp st first win k).isSome && (col k win).any Val.isNil)
+/-- the columns that get a missingness indicator, in column order (`impute_binary`): every feature that has
+a missing value in the window, imputable or not -/
+def denseBins (ind : Bool) (first : List Val) (win : List (List Val)) : List Nat :=
+  if ind then (List.range first.length).filter (fun k => (col k win).any Val.isMiss)
   else []
 
 /-- the application loop of `Impute.filter` on one dense context -/
 def imputeDenseRow (st : Stat) (ind : Bool) (first : List Val) (win : List (List Val)) (row : List Val) : List Val :=
   row.mapIdx (fun k v => imputeCell (denseImp st first win k) v)
-    ++ (denseBins st ind first win).map (fun k => bit (row[k]? == some Val.nil))
+    ++ (denseBins ind first win).map (fun k => bit (missAt row[k]?))
 
 /-- `Impute.filter` on dense contexts -/
 def imputeDense (st : Stat) (ind : Bool) (u : Option Nat) (rows : List (List Val)) : List (List Val) :=
@@ -285,28 +294,38 @@ def sparseCol (k : String) (win : List SCtx) : List Val :=
   let present := win.filterMap (fun c => c.lookup k)
   present ++ List.replicate (win.length - present.length) (.num 0)
 
-def impSparseKey (st : Stat) (first : SCtx) (win : List SCtx) (k : String) : Bool :=
-  win.any (hasKey k) && !(match st with
+/-- sparse imputable keys: all for mode, else those whose value in the first context is not a string -/
+def impSparseKey (st : Stat) (first : SCtx) (k : String) : Bool :=
+  !(match st with
     | .mode => false
     | _ => match first.lookup k with | some v => v.isStr | none => false)
 
+/-- the imputation of a sparse key: the statistic of its window column, absent = 0 (for a key absent from the
+whole window that column is all zeros: the code's `unseen`) -/
 def sparseImp (st : Stat) (first : SCtx) (win : List SCtx) (k : String) : Option Val :=
-  if impSparseKey st first win k then getImp st (sparseCol k win) else none
+  if impSparseKey st first k then getImp st (sparseCol k win) else none
 
 /-- keys of the window in first-appearance order, without repetition -/
 def seenKeys : List SCtx → List String → List String
   | [], acc => acc.reverse
   | c :: cs, acc => seenKeys cs (c.foldl (fun a kv => if a.contains kv.1 then a else kv.1 :: a) acc)
 
-def sparseBins (st : Stat) (ind : Bool) (first : SCtx) (win : List SCtx) : List String :=
-  if ind then (seenKeys win []).filter (fun k =>
-    (sparseImp st first win k).isSome && (win.filterMap (fun c => c.lookup k)).any Val.isNil)
+/-- the keys that get a `<key>_is_missing` indicator: every key with a missing value in the window -/
+def sparseBins (ind : Bool) (win : List SCtx) : List String :=
+  if ind then (seenKeys win []).filter (fun k => (win.filterMap (fun c => c.lookup k)).any Val.isMiss)
   else []
 
-/-- the application loop of `Impute.filter` on one sparse context -/
+/-- `d[k] = v` on an association list: overwrite in place or append -/
+def upsert (c : SCtx) (k : String) (v : Val) : SCtx :=
+  match c with
+  | [] => [(k, v)]
+  | kv :: rest => if kv.1 == k then (k, v) :: rest else kv :: upsert rest k v
+
+/-- the application loop of `Impute.filter` on one sparse context; the indicators are written with
+`context.update(is_missing)`, i.e. an existing key `<k>_is_missing` is overwritten -/
 def imputeSparseRow (st : Stat) (ind : Bool) (first : SCtx) (win : List SCtx) (c : SCtx) : SCtx :=
-  c.map (fun kv => (kv.1, imputeCell (sparseImp st first win kv.1) kv.2))
-    ++ (sparseBins st ind first win).map (fun k => (k ++ "_is_missing", bit (c.lookup k == some Val.nil)))
+  (sparseBins ind win).foldl (fun acc k => upsert acc (k ++ "_is_missing") (bit (missAt (c.lookup k))))
+    (c.map (fun kv => (kv.1, imputeCell (sparseImp st first win kv.1) kv.2)))
 
 /-- `Impute.filter` on sparse contexts -/
 def imputeSparse (st : Stat) (ind : Bool) (u : Option Nat) (rows : List SCtx) : List SCtx :=
@@ -323,8 +342,8 @@ inductive ScalarOut where
 def imputeScalar (st : Stat) (ind : Bool) (u : Option Nat) (rows : List Val) : ScalarOut :=
   let win := window u rows
   let imp := getImp st win
-  if ind && win.any Val.isNil then
-    .pairs (rows.map (fun v => [imputeCell imp v, bit v.isNil]))
+  if ind && win.any Val.isMiss then
+    .pairs (rows.map (fun v => [imputeCell imp v, bit v.isMiss]))
   else
     .scalars (rows.map (imputeCell imp))
 
@@ -351,6 +370,71 @@ def scaleCtxs (sd : List Rat → Rat) (cfg : Cfg) : Ctxs → Except Err Ctxs
   | .dense rows => .ok (.dense (scaleDense sd cfg rows))
   | .sparse rows => (scaleSparse sd cfg rows).map .sparse
   | .scalar rows => .ok (.scalar (scaleScalar sd cfg rows))
+
+/-! ### filter objects and collections of environments
+
+`Environments([envA, envB, …]).scale(...)` creates ONE `Scale` object and joins it to every environment
+(`Environments.filter`); `.impute([s1, s2])` creates one `Impute` object per statistic, each shared by all
+environments.  An object carries its configuration and mutable bookkeeping (`_times`, which `Impute.filter`
+increases by elapsed times on every call).  The model threads that state explicitly; `filter_stateless` and
+`collection_pointwise` (Props) say it never influences a result. -/
+
+structure Obj (κ : Type) where
+  cfg : κ
+  times : List Nat
+
+/-- one call `obj.filter(x)`: the result is computed from the configuration; `_times` grows by `dt` -/
+def Obj.call {κ α β : Type} (f : κ → α → β) (o : Obj κ) (dt : List Nat) (x : α) : Obj κ × β :=
+  ({ o with times := List.zipWith (· + ·) o.times dt }, f o.cfg x)
+
+/-- the same object applied to several sequences one after the other -/
+def Obj.run {κ α β : Type} (f : κ → α → β) : Obj κ → List (List Nat × α) → Obj κ × List β
+  | o, [] => (o, [])
+  | o, (dt, x) :: rest =>
+    let r1 := o.call f dt x
+    let r2 := Obj.run f r1.1 rest
+    (r2.1, r1.2 :: r2.2)
+
+/-- configuration of an `Impute` object: statistic, indicator, using -/
+abbrev ImpCfg := Stat × Bool × Option Nat
+
+def imputeF (c : ImpCfg) (x : Ctxs) : Except Err Ctxs := .ok (imputeCtxs c.1 c.2.1 c.2.2 x)
+
+/-- reading through a pipeline of shared filter objects (an exception ends the read) -/
+def pipeRun {κ : Type} (f : κ → Ctxs → Except Err Ctxs) (dt : List Nat) :
+    List (Obj κ) → Except Err Ctxs → List (Obj κ) × Except Err Ctxs
+  | [], r => ([], r)
+  | o :: os, .error e => (o :: os, .error e)
+  | o :: os, .ok c =>
+    let r1 := o.call f dt c
+    let r2 := pipeRun f dt os r1.2
+    (r1.1 :: r2.1, r2.2)
+
+/-- the stateless meaning of a pipeline: the filters' functions composed -/
+def pipe {κ : Type} (f : κ → Ctxs → Except Err Ctxs) (cfgs : List κ) (x : Except Err Ctxs) : Except Err Ctxs :=
+  cfgs.foldl (fun r k => r.bind (f k)) x
+
+/-- a collection of environments sharing the filter objects of one `.scale(...)` / `.impute(...)` call -/
+structure Coll (κ : Type) where
+  srcs : List Ctxs
+  objs : List (Obj κ)
+
+/-- `envs[i].read()` (`none`: no such environment) -/
+def Coll.read {κ : Type} (f : κ → Ctxs → Except Err Ctxs) (c : Coll κ) (dt : List Nat) (i : Nat) :
+    Coll κ × Option (Except Err Ctxs) :=
+  match c.srcs[i]? with
+  | none => (c, none)
+  | some src =>
+    let r := pipeRun f dt c.objs (.ok src)
+    ({ c with objs := r.1 }, some r.2)
+
+/-- reading environments in any order, any number of times -/
+def Coll.reads {κ : Type} (f : κ → Ctxs → Except Err Ctxs) : Coll κ → List (List Nat × Nat) → Coll κ × List (Option (Except Err Ctxs))
+  | c, [] => (c, [])
+  | c, (dt, i) :: rest =>
+    let r1 := c.read f dt i
+    let r2 := Coll.reads f r1.1 rest
+    (r2.1, r1.2 :: r2.2)
 
 /-! ### specification -/
 
@@ -433,6 +517,38 @@ def StatsDefined (cfg : Cfg) (w : List Val) : Prop :=
     | .std => 2 ≤ (nums w).length
     | _ => nums w ≠ [])
 
+
+/-! ### `std` without an abstract square root -/
+
+/-- exact sample variance (denominator `n−1`): what `statistics.variance` computes and `statistics.stdev`
+takes the square root of -/
+def variance (xs : List Rat) : Rat :=
+  sumL (xs.map (fun x => (x - sumL xs / (xs.length : Rat)) * (x - sumL xs / (xs.length : Rat)))) / ((xs.length : Rat) - 1)
+
+/-- `f` is the reciprocal square root of `v` — said inside ℚ: the non-negative `f` with `f²·v = 1` -/
+def IsInvSqrt (v f : Rat) : Prop := 0 ≤ f ∧ f * f * v = 1
+
+/-- the square-root routine is exact on the data `xs` -/
+def SqrtExact (sd : List Rat → Rat) (xs : List Rat) : Prop := 0 ≤ sd xs ∧ sd xs * sd xs = variance xs
+
+/-- the square-root routine has relative error `δ` (in the square) on `xs`: `sd² = var·(1+δ)` -/
+def SqrtWithin (sd : List Rat → Rat) (xs : List Rat) (δ : Rat) : Prop :=
+  0 < sd xs ∧ sd xs * sd xs = variance xs * (1 + δ)
+
+/-- the scale statistic with `std` characterised algebraically (no function parameter): for at least two
+values the factor is 1 when the deviation is below 1e-6 (variance below 1e-12) and otherwise THE reciprocal
+square root of the sample variance; the other statistics as in `ScaleStat` (which does not use `sd` there) -/
+def ScaleStatQ (sc : Scl) (xs : List Rat) (s f : Rat) : Prop :=
+  match sc with
+  | .std => 2 ≤ xs.length ∧
+      ((variance xs < 1 / 1000000000000 ∧ f = 1) ∨ (1 / 1000000000000 ≤ variance xs ∧ IsInvSqrt (variance xs) f))
+  | sc => ScaleStat (fun _ => 0) sc xs s f
+
+def ScaleCellSpecQ (cfg : Cfg) (w : List Val) (v out : Val) : Prop :=
+  match v with
+  | .num x => ∃ s f, ShiftStat cfg.shift (nums w) s ∧ ScaleStatQ cfg.scale (nums w) s f ∧ out = .num ((x + s) * f)
+  | v => out = v
+
 /-- `m` is a mode of `vs` -/
 def IsMode (vs : List Val) (m : Val) : Prop := m ∈ vs ∧ ∀ v, count v vs ≤ count m vs
 
@@ -446,7 +562,7 @@ def ImpStat (st : Stat) (vs : List Val) (m : Val) : Prop :=
 /-- a feature is imputable in a window: it has a non-missing value there and, for mean/median,
 all its non-missing values are numbers -/
 def Imputable (st : Stat) (w : List Val) : Prop :=
-  (w.filter (fun v => !v.isNil)) ≠ [] ∧
-  (match st with | .mode => True | _ => (w.filter (fun v => !v.isNil)).all Val.isNum = true)
+  (w.filter (fun v => !v.isMiss)) ≠ [] ∧
+  (match st with | .mode => True | _ => (w.filter (fun v => !v.isMiss)).all Val.isNum = true)
 
 end Coba.C11
